@@ -206,10 +206,22 @@ def sign_encrypt_sources(ctx, cg):
         ("ncs.basic_kms:SuitKMS.encrypt", "RNG: os.urandom"),
         ("suit_generator.cmd_sign:RecursiveSigner.__init__", "environment: os.environ"),  # script location fallback, not output content
     }
+    from sa.absint import _known_functions
+    known = _known_functions()
+
+    def permitted(fq, what, depth=0):
+        if any(fq == a and (what.startswith(b) or b in what) for a, b in allowed):
+            return True
+        # a helper the table has never seen, called only from functions in which this very source is permitted: the statements moved,
+        # the flow did not (the permission is for what the caller does with the value, and the caller is still the only user)
+        if known is None or fq in known or depth >= 3:
+            return False
+        callers = [c for c, (cf, _) in reach.items() if any(t.fq == fq for t in cg.callees(cf))]
+        return bool(callers) and all(permitted(c, what, depth + 1) for c in callers)
     for fq, (f, pred) in sorted(reach.items()):
         if f.module.name == "suit_generator.logger":
             continue
-        bad = [(n, w) for n, w in forbidden_in(ctx, f) if not any(fq == a and (w.startswith(b) or b in w) for a, b in allowed)]
+        bad = [(n, w) for n, w in forbidden_in(ctx, f) if not permitted(fq, w)]
         if bad:
             for n, what in bad:
                 R.fail("C18-D1d sign/encrypt: only the allowed sources", f"{fq}: {what}", mod=f.module, node=n, function=fq,
